@@ -60,8 +60,10 @@ def alpha_obj(s, inv):
         if isinstance(inv, IntInv):
             return [inv.get(x, -999) for x in np.asarray(a).tolist()]
         return [inv.get(float(x), -999) for x in np.asarray(a).tolist()]
+    # (a configuration label may have been assigned as the plain string the label type equals)
     return {"pos": back(s.pos), "neg": back(s.neg), "ep": int(s.nb_easy_pos),
-            "en": int(s.nb_easy_neg), "sc": s.score_class.value, "ec": s.equal_class.value}
+            "en": int(s.nb_easy_neg), "sc": getattr(s.score_class, "value", s.score_class),
+            "ec": getattr(s.equal_class, "value", s.equal_class)}
 
 
 def as_args(o, sorted_=False):
